@@ -1006,6 +1006,12 @@ func callBuiltin(caller *frame, callpos token.Pos, fn *ssa.Builtin, args []value
 		return nil
 
 	case "print", "println": // print(any, ...)
+		// Go's built-in print writes to standard error: from library code
+		// that is an effect C10 excludes
+		if caller != nil && caller.fn != nil && caller.fn.Pkg != nil && caller.fn.Pkg.Pkg != nil &&
+			caller.fn.Pkg.Pkg.Name() != "main" && caller.i.ld.isRepo(caller.fn.Pkg.Pkg.Path()) {
+			caller.i.forbidden("builtin "+fn.Name(), "output other than standard output", caller)
+		}
 		ln := fn.Name() == "println"
 		var buf bytes.Buffer
 		for i, arg := range args {
